@@ -493,6 +493,8 @@ PktLoadCaseOf(li, ind, w, pos, k) ==
 PktLoadIdx(u) == { <<li, ind, w, pos, k>> : li \in {1, 2, 3, 4, 6}, ind \in {0, 1}, w \in Widths,
                      pos \in (0..2) \cup ((BPktLen - 9)..(BPktLen + 1)) \cup {2147483647, MinI32, -1},
                      k \in {0, 4} }
+                 \* packets SHORTER than the load (4, 2 and 1 bytes: "length - width" is negative)
+                 \cup { <<li, ind, w, pos, 0>> : li \in {9, 10, 11}, ind \in {0, 1}, w \in Widths, pos \in (0..5) \cup {64, 4096} }
 
 \* overlapping registered ranges: an inner range nested in an outer one (same bytes where they
 \* overlap; loads only, so that the two images of the shared bytes cannot diverge).  An access
